@@ -1017,7 +1017,10 @@ class C11(Prop):
             # 1. boundary sequences: largest accepted argument, one more (refused), and going on afterwards
             for fx in (fixes if thorough else [rng.choice(fixes)]):
                 a = g.init(rng, **fx)
-                for steps in g.boundary(rng, a):
+                bseqs = g.boundary(rng, a)
+                if not thorough and len(bseqs) > 2:
+                    bseqs = rng.sample(bseqs, 2)        # quick: two of the boundary sequences (the seed decides which)
+                for steps in bseqs:
                     yield seq_case(name, a, steps, "boundary")
             # 2. exhaustive short sequences over a small pool
             for fx in fixes:
